@@ -128,6 +128,7 @@ type Exec struct {
 	weightCtr   int
 	dumpCtr     int
 	spCtr       int
+	writeEvents int
 	pcSyms      []map[int]bool
 	symCache    map[int]map[int]bool
 	ufIdx       map[string]int
@@ -1894,6 +1895,7 @@ func (x *Exec) builtin(f *frame, b *ssa.Builtin, args []Value, argv []ssa.Value)
 		}
 		if s.Obj != nil && s.Len+addLen <= s.Cap {
 			if s.Obj.Caller && x.trackWrites {
+				x.writeEvents++
 				x.event("caller-write", fmt.Sprintf("append into caller backing array %s at %s", s.Obj.Name, x.where()))
 			}
 			copy(s.Obj.Cells[s.Off+s.Len*ec:], addCells)
@@ -1930,6 +1932,7 @@ func (x *Exec) builtin(f *frame, b *ssa.Builtin, args []Value, argv []ssa.Value)
 		}
 		if n > 0 {
 			if d.Obj.Caller && x.trackWrites {
+				x.writeEvents++
 				x.event("caller-write", fmt.Sprintf("copy into %s at %s", d.Obj.Name, x.where()))
 			}
 			copy(d.Obj.Cells[d.Off:], src)
@@ -2039,6 +2042,7 @@ func (x *Exec) resetPath() {
 	x.bigVals = nil
 	x.shapers = nil
 	x.weightCtr = 0
+	x.writeEvents = 0
 	x.spCtr = 0
 	x.lazyCount = 0
 	x.pcUnchecked = false
